@@ -13,7 +13,7 @@ def desc_texts(level):
     """(text) variety of descriptor syntaxes; level 0 = plain symbols, 1 = + ids/weights, 2 = every float syntax"""
     out = ["[$]", "[<]", "[>]"]
     if level >= 1:
-        out += ["[$1]", "[<2]", "[>2]", "[$|2|]", "[<|0.5|]", "[>|0|]", "[$12|3.5|]", "[$|1 0 2|]", "[<1|0 0 4.5|]", "[$|1 1 1|]", "[>|1|]", "[<|1 1|]", "[$|0 0|]"]
+        out += ["[$1]", "[<2]", "[>2]", "[$|2|]", "[<|0.5|]", "[>|0|]", "[$12|3.5|]", "[$|1 0 2|]", "[<1|0 0 4.5|]", "[$|1 1 1|]", "[>|1|]", "[<|1 1|]", "[$|0 0|]", "[$|1.e3|]", "[<|2.E-1|]", "[>|1.e1 2 +3|]", "[$3|+.5e+1|]", "[<|1E2|]"]
     if level >= 2:
         out += ["[$|2.|]", "[<|.5|]", "[>|5e-1|]", "[$|2e0|]", "[$ 3]", "[<| 21. 234. 2134. |]", "[$007]", "[>|1.0 2 .5 0|]", "[$|0.0|]", "[<99|1e-3|]"]
     return out
